@@ -1353,6 +1353,12 @@ def m_vec_from_elem(it, n, a):
     return VecV([clone_val(deref(a[0])) for _ in range(cnt)])
 
 
+@model(r'^<&?(mut )?\{C\} as (std::ops::)?Fn(Mut|Once)?<.*>>::call(_mut|_once)?$')
+def m_closure_call(it, n, a):
+    args = deref(a[1])
+    return it.call_closure(a[0], list(args.fields) if isinstance(args, Agg) else [args])
+
+
 @model(r'^UniqueArena::<.*>::get$')
 def m_unique_arena_get(it, n, a):
     """handle of the arena element equal to the given value (derived Eq, decided element by element)"""
@@ -1418,9 +1424,21 @@ def enum_eq(it, x, y):
     return dx == dy
 
 
-@model(r'^<(ScalarKind|ShaderStage|VectorSize|ImageDimension) as PartialEq>::eq$')
+@model(r'^<&?(ScalarKind|ShaderStage|VectorSize|ImageDimension) as PartialEq(<.*>)?>::eq$')
 def m_enum_eq(it, n, a):
     return enum_eq(it, a[0], a[1])
+
+
+@model(r'^<naga::Scalar as PartialEq>::eq$')
+def m_scalar_eq(it, n, a):
+    x, y = deref(a[0]), deref(a[1])
+    k = enum_eq(it, x.fields[0], y.fields[0])
+    w = h_eq(x.fields[1], y.fields[1])
+    if k is False or w is False:
+        return False
+    if k is True and w is True:
+        return True
+    return z3.And(*[t for t in (k, w) if t is not True])
 
 
 @model(r'^<AddressSpace as PartialEq>::eq$')
@@ -2507,7 +2525,7 @@ def m_str_to_string(it, n, a):
     return arg0(a)
 
 
-@model(r'^(u8|u16|u32|u64|usize|i32|i64)::(saturating_sub|saturating_add|wrapping_add|wrapping_sub|max|min|pow|next_power_of_two|div_ceil)$|<(u8|u16|u32|u64|usize|i32|i64) as Ord>::(max|min)$')
+@model(r'^(core::num::<impl )?(u8|u16|u32|u64|usize|i32|i64)>?::(saturating_sub|saturating_add|wrapping_add|wrapping_sub|max|min|pow|next_power_of_two|div_ceil|next_multiple_of)$|<(u8|u16|u32|u64|usize|i32|i64) as Ord>::(max|min)$')
 def m_int_ops(it, n, a):
     ty = re.search(r'(u8|u16|u32|u64|usize|i32|i64)', n).group(1)
     op = re.search(r'::(\w+)$', n).group(1)
@@ -2518,7 +2536,8 @@ def m_int_ops(it, n, a):
         M = (1 << w) - 1
         return {'saturating_sub': lambda: max(0, x - y), 'saturating_add': lambda: min(M, x + y), 'wrapping_add': lambda: (x + y) & M,
                 'wrapping_sub': lambda: (x - y) & M, 'max': lambda: max(x, y), 'min': lambda: min(x, y), 'pow': lambda: (x ** y) & M,
-                'next_power_of_two': lambda: 1 << (x - 1).bit_length() if x > 1 else 1, 'div_ceil': lambda: -(-x // y)}[op]()
+                'next_power_of_two': lambda: 1 << (x - 1).bit_length() if x > 1 else 1, 'div_ceil': lambda: -(-x // y),
+                'next_multiple_of': lambda: -(-x // y) * y}[op]()
     xz = x if is_sym(x) else z3.BitVecVal(x, w)
     yz = y if (y is None or is_sym(y)) else z3.BitVecVal(y, w)
     if op == 'max':
@@ -2533,6 +2552,8 @@ def m_int_ops(it, n, a):
         return xz - yz
     if op == 'div_ceil':
         return z3.UDiv(xz + yz - 1, yz)
+    if op == 'next_multiple_of':
+        return z3.UDiv(xz + yz - 1, yz) * yz          # (overflow panics in debug builds are not modelled: sizes here are far below 2^32)
     raise Unsupported(n)
 
 
